@@ -39,12 +39,14 @@ SoundVals(M, vals) ==
 Complete(vals) == \A i \in DOMAIN vals : vals[i] # 2
 ModelOfVals(vals) == {v \in 1..(Len(vals) - 1) : vals[v + 1] = 1}
 
-\* ---- meaning of the reified constructors (C13); args is a sequence of literals read as a set ----------
+\* ---- meaning of the reified constructors (C13); args is a sequence of literals: for the cardinality constructors every
+\* occurrence counts (x ^ x is false whatever x is, as the truth table of the RIDDLE operator says) ----------
 EqMeaning(m, args) == LitTrue(m, args[1]) = LitTrue(m, args[2])
 ConjMeaning(m, args) == \A i \in DOMAIN args : LitTrue(m, args[i])
 DisjMeaning(m, args) == \E i \in DOMAIN args : LitTrue(m, args[i])
-AmoMeaning(m, args) == CountTrue(m, SeqRange(args)) <= 1
-ExoMeaning(m, args) == CountTrue(m, SeqRange(args)) = 1
+Occurrences(m, args) == Cardinality({i \in DOMAIN args : LitTrue(m, args[i])})
+AmoMeaning(m, args) == Occurrences(m, args) <= 1
+ExoMeaning(m, args) == Occurrences(m, args) = 1
 Meaning(kind, m, args) ==
   CASE kind = "eq" -> EqMeaning(m, args)
     [] kind = "conj" -> ConjMeaning(m, args)
